@@ -609,6 +609,21 @@ def build(tier, seed):
                     k_ = 2 + (1 if ems[0] == 'G' and len(ems) == 2 else 0)
                     c['params'][k_:k_ + 2] = [1.5, 0.1]
                 grids.append(c)
+    # large readings with small noise (cell counts of 1e5 measured to 0.1): the
+    # residuals are tiny against the values
+    for code, sig in (('G', [0.1]), ('CM', [0.1, 1e-7]), ('M', [5e-7])):
+        for big in (2.0e5, 3.0e7):
+            c = make_case([code], [ms[5]], 1, [0], seed, tag='L')
+            c['params'][:2] = [big, 0.3]
+            c['params'][2:] = sig
+            t_ = np.sort(np.asarray(c['times'][0], dtype=float))
+            yb_ = np.real(toy.evaluate(np.array(c['params'][:2]), t_, 1)[0])
+            order_ = np.argsort(np.asarray(c['times'][0], dtype=float), kind='stable')
+            ob_ = np.empty(len(t_))
+            ob_[order_] = yb_ + 0.07 * (-1.0) ** np.arange(len(t_)) * (
+                1 + 0.3 * np.arange(len(t_)))
+            c['obs'] = [ob_.tolist()]
+            grids.append(c)
     # measurements and / or times that are whole numbers, handed over as Python ints
     # and as integer arrays (cf. `int_data` in build_likelihood)
     for code in codes:
@@ -790,3 +805,4 @@ META['level_text'] += (
     't afterwards, dictionaries written from the last entry, zero / negative mechan'
     'istic parameters, negative model outputs, integer-typed data, near-equal times'
     '.')
+META['level_text'] += (' Wave 9: readings of 1e5 and 1e7 with noise 0.1.')
